@@ -28,7 +28,7 @@ Qed.
 Theorem end_to_end_none (hash : list N -> N) (evalid tvalid : N -> bool) c jw hw jr hr (ws : list (list N)) (ns : list N) nframes rbuf sched :
   cfg_ok evalid tvalid c ->
   (h_ck c = 1 -> forall l, hash l < 2 ^ 32) -> (h_ck c = 2 -> forall l, hash l < 2 ^ 64) ->
-  h_bsize c <= 8388608 -> bytes_ok (concat ws) -> (length (concat ws) < nframes)%nat ->
+  bytes_ok (concat ws) -> (length (concat ws) < nframes)%nat ->
   0 < jw -> 0 < jr -> 0 < rbuf -> rbuf mod 8 = 0 ->
   let B := h_bsize c in
   exists s1 s2 frames,
@@ -37,12 +37,13 @@ Theorem end_to_end_none (hash : list N -> N) (evalid tvalid : N -> bool) c jw hw
     parse_stream hash evalid tvalid nframes rbuf sched (write_stream hash c (map snd (w_out s2))) = Some (norm_cfg c, frames) /\
     fst (do_reads B jr hr (init_r (map frame_of frames)) ns) = spec_reads (concat ws) ns.
 Proof.
-  intros Hc H32 H64 H8 Hd Hnf Hjw Hjr Hr Hr8 B.
+  intros Hc H32 H64 Hd Hnf Hjw Hjr Hr Hr8 B.
+  assert (H8 : B <= 1073741824) by (destruct (bs_ok _ _ _ Hc) as [[_ X] _]; unfold MAX_BLOCK in X; exact X).
   assert (HB : 0 < B) by (destruct (bs_ok _ _ _ Hc) as [[X _] _]; unfold MIN_BLOCK in X; unfold B; lia).
   destruct (writer_chunking B jw hw HB Hjw ws) as (s1 & s2 & E1 & E2 & _ & O & _).
   destruct (chunks_f_ok B HB (length (concat ws)) (concat ws) Hd) as [Hok Hlen]. fold (chunks B (concat ws)) in Hok, Hlen.
   assert (Hbl : Forall (blk_ok B) (map snd (w_out s2))).
-  { rewrite O. eapply Forall_impl; [|exact Hok]. intros x (X1 & X2 & X3). unfold blk_ok. repeat split; try assumption. unfold B in X2. lia. }
+  { rewrite O. eapply Forall_impl; [|exact Hok]. intros x (X1 & X2 & X3). unfold blk_ok. repeat split; try assumption. lia. }
   exists s1, s2, (map PData (map snd (w_out s2)) ++ [PEnd]).
   split; [exact E1|]. split; [exact E2|]. split.
   - apply (container_roundtrip hash evalid tvalid c Hc H32 H64 _ nframes rbuf sched Hbl); [rewrite O; lia|exact Hr|exact Hr8].
